@@ -245,6 +245,7 @@ func (p c18) Run(t *testing.T, c *Case, s Sched, keepLog bool) *Obs {
 			}
 		}
 		o.SubRuns = live.Calls
+		o.Res.Probes = map[string]int{"configs-printed": hi - lo + 1, "programs-under-all-256-configs": b2i(hi-lo == 255)}
 		o.Dump = fmt.Sprintf("fault-free lane: %d Fprint calls", live.Calls)
 		return o
 	}
@@ -340,6 +341,7 @@ func (p c18) Run(t *testing.T, c *Case, s Sched, keepLog bool) *Obs {
 		}
 	}
 	o.Fired = live.Fired > 0
+	o.Res.Probes = map[string]int{"writer-faults-fired": live.Fired, "fault-lane-fprint-calls": live.Calls}
 	o.SubRuns = live.Calls
 	o.Dump = fmt.Sprintf("fault lane: %d Fprint calls, %d faults fired", live.Calls, live.Fired)
 	return o
@@ -362,4 +364,11 @@ func (c18) Nontrivial(c *Case, obs []*Obs) bool {
 		}
 	}
 	return false
+}
+
+func b2i(b bool) int {
+	if b {
+		return 1
+	}
+	return 0
 }
